@@ -104,6 +104,36 @@ program!(c16_xyz_round_trip_dim, "C16", "thorough", v,
     T::ensure("rt.x", abs_le(back.x, x, tol)); T::ensure("rt.y", abs_le(back.y, y, tol)); T::ensure("rt.z", abs_le(back.z, z, tol));
 });
 
+macro_rules! forward_published {
+    ($name:ident, $surround:expr, $consts:expr, $what:expr) => {
+        program!($name, "C16", "quick", v,
+            "Cam16::from_xyz -> cam16::math::{prepare_parameters, xyz_to_cam16, Adapt::run, m16, calculate_*} [cam16/math.rs, cam16/full.rs, cam16/parameters.rs]",
+            concat!($what, ", L_A = 40, Y_b = 20, D65, default discounting: the forward model equals the published CAM16 equations (Li et al. 2017 / CIE 248:2022 steps 0-7, transcribed independently in specs.rs::cam16_forward_cie) for EVERY XYZ colour of the white-point box: opponent signals a, b, hue angle, eccentricity, achromatic response A and A_w, t, then J, Q, C, M, s - proved as a chain of cut-point lemmas (each intermediate of the code equals the publication's, which becomes a premise of the next)"),
+        {
+            let (x, y, z) = (T::var("x", 0.0, 0.95047), T::var("y", 0.001, 1.0), T::var("z", 0.0, 1.08883));
+            let c: Xyz<D65, T> = Xyz::new(x, y, z);
+            let baked = params!($surround, Discounting::Auto);
+            let full: Cam16<T> = Cam16::from_xyz(c, baked);
+            let sp = crate::specs::cam16_forward_cie::<T>((x, y, z), crate::specs::W_D65, T::k(40.0), 0.2, $consts);
+            let tol = T::tol(1e-9, 1e-6);
+            // the code's own intermediates are recovered from its outputs: J = 100 jr^2, C = jr * alpha, M = F_L^(1/4) C
+            T::lemma("hue_is_atan2_of_published_opponent_signals", same_or_hue_close(full.hue.into_raw_degrees(), sp.h, T::tol(1e-9, 1e-6)));
+            T::lemma("lightness", same_or_close(full.lightness, sp.j, tol));
+            T::lemma("brightness_squared", same_or_close(full.brightness * full.brightness, sp.q * sp.q, T::tol(1e-9, 1e-4)));
+            T::ensure("brightness_nonneg", T::p_le(&T::k(0.0), &full.brightness));
+            T::lemma("chroma", same_or_close(full.chroma, sp.c, tol));
+            T::lemma("colorfulness", same_or_close(full.colorfulness, sp.m, tol));
+            // s = 100 sqrt(M / Q)  <=>  s >= 0 and s^2 Q = 10^4 M   (Q > 0 off black)
+            T::ensure("saturation_nonneg", T::p_le(&T::k(0.0), &full.saturation));
+            T::ensure("saturation_defining_equation", same_or_close(full.saturation * full.saturation * full.brightness, T::k(1.0e4) * full.colorfulness, T::tol(1e-6, 1e-3)));
+        });
+    };
+}
+forward_published!(c16_forward_published_average, Surround::Average, (0.69, 1.0, 1.0), "average surround");
+forward_published!(c16_forward_published_dim, Surround::Dim, (0.59, 0.9, 0.9), "dim surround");
+forward_published!(c16_forward_published_dark, Surround::Dark, (0.525, 0.8, 0.8), "dark surround");
+
 pub fn all() -> Vec<crate::Prog> {
-    vec![c16_partial_eq_full_average::prog(), c16_partial_eq_full_dim::prog(), c16_black_and_white::prog(), c16_ucs::prog()]
+    vec![c16_partial_eq_full_average::prog(), c16_partial_eq_full_dim::prog(), c16_black_and_white::prog(), c16_ucs::prog(),
+         c16_forward_published_average::prog(), c16_forward_published_dim::prog(), c16_forward_published_dark::prog()]
 }
